@@ -388,6 +388,8 @@ def subspaces(tier, seed):
         sp.append(S("chunkwise-i8-A2-n1to3", 2, 1, 3, mode="chunkwise", vdtype="i8", bound=0, seed=seed))
         sp.append(S("chunkwise-M8-A0_2-n1to3", 2, 1, 3, mode="chunkwise", vdtype="M8[ns]",
                     with_mask=False, bound=0, seed=seed))
+        # a chunk whose rows of a group are all rejected by the mask: empty partial of a dtype without null
+        sp.append(S("chunkwise-u1-A2-n2to3", 2, 2, 3, mode="chunkwise", vdtype="u1", bound=0, seed=seed))
         sp.append(S("multikey-float+str-A0_2-n2", 2, 2, 2, mode="multikey", keykind="float+str_obj",
                     with_mask=False, bound=1, seed=seed))
         # narrow integer / bool values under several threads (their 'no value' filler is not a null)
